@@ -1,2 +1,26 @@
 import GlueVerif.Props.C08
 open GlueVerif.C08
+#print axioms rect_branches_agree
+#print axioms bbox_contains_rotated_rect
+#print axioms ellipse_branches_agree
+#print axioms ellipse_bounds_contain
+#print axioms circle_spec
+#print axioms annulus_spec
+#print axioms range_spec
+#print axioms polygon_bbox_never_drops
+#print axioms polygon_impl_eq_evenodd
+#print axioms categorical_spec
+#print axioms move_equivariant
+#print axioms center_moveTo
+#print axioms range_center_moveTo
+#print axioms polygon_translate
+#print axioms polygon_centroid_translate
+#print axioms rotate_equivariant_rect
+#print axioms rotate_equivariant_rect_spec
+#print axioms rotate_equivariant_ellipse_spec
+#print axioms rotate_equivariant_ellipse
+#print axioms copy_same
+#print axioms params_roundtrip
+#print axioms restore_same
+#print axioms shape_independent
+#print axioms projected_chunking
